@@ -70,7 +70,7 @@ Definition cfg_off : dcfg :=
                       [ {| r_id := 1; r_method := L "GET"; r_rel := L "/a"; r_consumes := []; r_produces := [];
                            r_conds := []; r_noct := []; r_enc := Some false |} ] |} ] |};
      d_cfilters := []; d_sfilters := []; d_rfilters := []; d_handlers := [(1%Z, [AWrite (L "x")])];
-     d_encoding := true; d_recover := false; d_recover_script := []; d_condpanic := [] |}.
+     d_encoding := true; d_recover := false; d_recover_script := []; d_condpanic := []; d_plain := [] |}.
 Definition req_gz : request :=
   {| rq_method := L "GET"; rq_path := L "/a"; rq_headers := [(H_AcceptEncoding, L "gzip")]; rq_clen := 0 |}.
 
